@@ -251,7 +251,14 @@ def main(tier):
         structured = (n % 2 == 1)
         eol = "\r\n" if n % 5 == 4 else "\n"
         macros = MACRO_SETS[n % len(MACRO_SETS)]
-        jobs.append((built, "%d-%d" % (ck.seed, n), chunk, structured, eol, macros, False))
+        homog = False
+        if n % 8 >= 6:
+            # every invocation in this file has layout between the macro name and the `!`, and the file holds nothing else
+            # (a per-file effect - a textual pre-filter, say - is masked by a single ordinary spelling anywhere in the file)
+            chunk = [dict(r, bang=rnd.choice(gen.BANG_SPACED), msg=("plain" if r["msg"] == "macrotext" else r["msg"]),
+                          pre=("indent" if r["pre"] == "stmt" else r["pre"])) for r in chunk]
+            homog = "spaced"
+        jobs.append((built, "%d-%d" % (ck.seed, n), chunk, structured, eol, macros, homog))
         n += 1
     for b, structured in enumerate((False, True)):
         bulk_rows = [dict(gen.random_feat(rnd), ref="none") for _ in range(160)]
